@@ -44,7 +44,7 @@ def zoo_specs(tier):
             ("hky-fullrank", ["advi"] + ev + ["-m", "HKY", "--clock", "strict", "--coalescent", "constant", "-q", "fullrank"], "advi"),
             ("mcmc-hky", ["mcmc"] + ev + ["-m", "HKY", "--clock", "strict", "--coalescent", "constant", "--stem", "x"], "mcmc"),
             ("hmc-hky", ["hmc"] + ev + ["-m", "HKY", "--clock", "strict", "--coalescent", "constant", "--stem", "x"], "hmc"),
-            ("mg94", ["advi"] + zoo.evo_args("t4c.fa", "t4.nwk", dated=False) + ["-m", "MG94"], "advi"),
+            ("mg94", ["advi"] + zoo.evo_args("t4c.fa", "t4.nwk", dated=False) + ["-m", "MG94", "--genetic_code", "0"], "advi"),
         ]
     return specs
 
